@@ -1081,9 +1081,19 @@ func main() {
 							tc.Payload = json.RawMessage(`{"text":"pong","n":7}`)
 							e.payload = map[string]interface{}{"text": "pong", "n": float64(7)}
 						}
+						if rr.File && rr.Code != -1 {
+							tc.Payload = json.RawMessage(`"streamed bytes \u00e9\n\u0000 end"`)
+							e.payload = "streamed bytes \u00e9\n\x00 end"
+						}
 						if len(rr.Headers) > 0 {
-							tc.RespHeaders = map[string]string{"XRate": "42"}
-							e.headers = map[string]string{"XRate": "42"}
+							tc.RespHeaders, e.headers = map[string]string{}, map[string]string{}
+							for _, h := range rr.Headers {
+								if h.Format == "date-time" {
+									tc.RespHeaders[h.GoName], e.headers[h.GoName] = "2021-03-04T05:06:07Z", "2021-03-04T05:06:07.000Z"
+								} else {
+									tc.RespHeaders[h.GoName], e.headers[h.GoName] = "42", "42"
+								}
+							}
 						}
 						tc.expect = e
 						cov[fmt.Sprintf("client:response:%d", rr.Code)]++
